@@ -154,7 +154,7 @@ def cycle(t: E.Tally, w, gwy, eav: bool, include_expired: bool, rep: dict, where
             t.bad(f"C16:fresh-gateway-does-not-start:{r3[0]}:immediate", f"{where}: start(cached_packets) + get_state: {r3}", rep)
         elif not same(s1[1], r3[1][1]):
             lost = sorted(set(s1[1]) - set(r3[1][1]))
-            t.bad("C16:packets-not-a-fixpoint:snapshot-on-return-of-start" + (":last-packet" if lost == [max(s1[1])] else "") + _frag(s1[1], r3[1][1], gwy if eav else None, g3), f"{where} include_expired={include_expired}: {len(s1[1])} packets saved; get_state() called as soon as start(cached_packets=...) returned reports {len(r3[1][1])} (missing {[s1[1][k][4:40] for k in lost][:2]})", rep)
+            t.bad("C16:packets-not-a-fixpoint:snapshot-on-return-of-start" + (_frag(s1[1], r3[1][1], gwy if eav else None, g3) or (":last-packet" if lost == [max(s1[1])] else "")), f"{where} include_expired={include_expired}: {len(s1[1])} packets saved; get_state() called as soon as start(cached_packets=...) returned reports {len(r3[1][1])} (missing {[s1[1][k][4:40] for k in lost][:2]})", rep)
         w3.close()
     except Exception as e:  # noqa: BLE001
         t.bad(f"C16:fresh-gateway-does-not-start:{type(e).__name__}:immediate", f"{where}: {str(e)[:160]}", rep)
